@@ -4,6 +4,7 @@
 #include <stdlib.h>
 #include <string.h>
 #include <signal.h>
+#include <sys/time.h>
 #include <unistd.h>
 #include <inttypes.h>
 
@@ -254,6 +255,26 @@ void __asan_on_error(void)
     crash_report("asan");
 }
 
+/* A case that burns more CPU time than its budget is stuck in library code
+ * (normal cases cost micro- to milliseconds).  CPU time of the process, not
+ * wall-clock time: a loaded machine does not trip it. */
+static const char *cpu_lab = "?";
+static void on_cpu_budget(int sig)
+{
+    (void)sig;
+    crash_report("hang");
+    char buf[160];
+    int n = snprintf(buf, sizeof(buf), "VH-ABORT-KEY hang:%s:case-exceeded-its-cpu-budget\n", cpu_lab);
+    if (write(2, buf, n) < 0) {}
+    _exit(4);
+}
+
+static void arm_cpu_budget(long seconds)
+{
+    struct itimerval it = { { 0, 0 }, { seconds, 0 } };
+    setitimer(ITIMER_VIRTUAL, &it, NULL);
+}
+
 static void on_signal(int sig)
 {
     crash_report(sig == SIGABRT ? "abort" : sig == SIGSEGV ? "segv" :
@@ -324,6 +345,9 @@ int vh_main(int argc, char **argv, const struct vh_lab *lab)
     signal(SIGFPE, on_signal);
     signal(SIGALRM, on_signal);
     setvbuf(stdout, NULL, _IOLBF, 0);
+    cpu_lab = lab->name;
+    long cpu_budget = vh_arg_int("case-cpu-budget", 120);
+    signal(SIGVTALRM, on_cpu_budget);
 
     if (lab->init) lab->init();
 
@@ -346,6 +370,7 @@ int vh_main(int argc, char **argv, const struct vh_lab *lab)
         case_nontrivial = false;
         struct vh_rng rng;
         vh_rng_seed(&rng, cs);
+        if (cpu_budget > 0) arm_cpu_budget(cpu_budget);
         if (!setjmp(vh_case_jmp))
             lab->run_case(&rng);
         cases_run++;
